@@ -120,6 +120,7 @@ theorem gnpLoop_ok {pn : Int} {pd : Nat} {pairs : List (Nat × Nat)} {ds : List 
       · cases h
     | [], h => simp [gnpLoop] at h
     | .choice _ :: _, h => simp [gnpLoop] at h
+    | .shuffle _ _ :: _, h => simp [gnpLoop] at h
 
 /-- conversely, every list of legal `random()` draws, one per pair, is a run of the loop -/
 theorem gnpLoop_complete (pn : Int) (pd : Nat) (pairs : List (Nat × Nat)) (nums : List Nat) (rest : List NxDraw)
@@ -278,6 +279,16 @@ theorem gnmLoop_ok {n m : Nat} : ∀ (ds : List NxDraw) (te : List (Nat × Nat))
       · cases h; exact ⟨hI, by omega, [], rfl⟩
       · cases h
     | .choice _ :: .unit _ :: ds', _, h =>
+      simp only [gnmLoop] at h
+      split at h
+      · cases h; exact ⟨hI, by omega, [], rfl⟩
+      · cases h
+    | .choice _ :: .shuffle _ _ :: ds', _, h =>
+      simp only [gnmLoop] at h
+      split at h
+      · cases h; exact ⟨hI, by omega, [], rfl⟩
+      · cases h
+    | .shuffle _ _ :: d :: ds', _, h =>
       simp only [gnmLoop] at h
       split at h
       · cases h; exact ⟨hI, by omega, [], rfl⟩
